@@ -174,7 +174,9 @@ Definition csv_records (file : text) : list (list text) := rd file RStartRecord 
 (* arrow-csv build_primitive for Utf8 with the default NullRegex: the empty field is NULL *)
 Definition parse_cell (f : text) : cell := if is_nil f then None else Some f.
 
-(* read_query_from_file: the header gives column_count; every data record must have that many fields
+(* read_query_from_file, for a file of one object-store chunk (< 8 KiB) ending in LF, as every file
+   written by persist for a small result does (schema inference passes the bytes through object_store's
+   LineDelimiter, which hands such a file over unchanged): the header gives column_count; every data record must have that many fields
    (RecordDecoder: "incorrect number of fields"); cells are formatted by format_record_batches *)
 Definition parse_file (file : text) : option (nat * list (list text)) :=
   match csv_records file with
